@@ -8,7 +8,7 @@ GROUPS = {
     'serial': (['serial_set_control'], 600, False, None),
     'header': (['header_checksum', 'header_size_tables', 'header_cart_type_supported', 'header_cart_type_unsupported'], 900, False, None),
     'leaf': (['leaf_interleave'], 900, False, None),
-    'strs': (['strs_parse_address_hex', 'strs_parse_address_dec'], 1800, False, 'ASCII tokens of at most 6 bytes'),
+    'strs': (['strs_parse_address_hex', 'strs_parse_address_dec', 'strs_parse_address_unicode'], 1800, False, 'ASCII tokens of at most 6 bytes (value); arbitrary UTF-8 tokens of at most 5 bytes (totality)'),
     'irq': (['irq_dispatch'], 1800, False, None),
     'objline': (['leaf_object_line', 'leaf_object_limit'], 2400, False, 'one scan line; A: 3 symbolic OAM entries with concrete tiles (others off-line); B: 11 entries on/off with symbolic X sharing one opaque tile'),
     'cmdline': (['strs_parse_command_total'], 3600, False, 'UTF-8 lines of at most 4 bytes'),
@@ -60,6 +60,42 @@ def run(prop, group, tier, seed, Ob):
                     o.replay = rep
                 else:
                     o.detail += '\n[native replay on a real core did not reproduce: %s]' % json.dumps(rep)[:600]
+    if group in ('serial', 'strs'):
+        import json, subprocess
+        todo = [o for o in obs if o.verdict == 'refuted'][:2]
+        if todo:
+            exe, err = kani_run.native_build()
+            for o in todo:
+                hn = re.match(r'kani:misc::(\w+)\[', o.name).group(1)
+                if exe is None:
+                    o.detail += '\n[no native replay: replay binary did not build: %s]' % (err or '')[-300:]
+                    continue
+                vals, err2 = kani_run.playback('h_misc', 'misc::harnesses::' + hn, fast=False)
+                if vals is None:
+                    o.detail += '\n[playback: %s]' % err2
+                    continue
+                if group == 'serial':
+                    args = [exe, 'replay-serial'] + [str(int(x, 16)) for x in vals[:4]]
+                else:
+                    n = {'strs_parse_address_hex': 6, 'strs_parse_address_dec': 6, 'strs_parse_address_unicode': 5}[hn]
+                    raw = bytes.fromhex(vals[0])[:n]; ln = min(int.from_bytes(bytes.fromhex(vals[1]), 'little'), n)
+                    args = [exe, 'replay-strs', raw[:ln].hex()]
+                p = subprocess.run(args, capture_output=True, text=True)
+                try:
+                    rep = json.loads(p.stdout.strip().splitlines()[-1])
+                except Exception:
+                    rep = {'error': 'replay output not understood (exit %s)' % p.returncode, 'stderr': p.stderr[-400:]}
+                rep['inputs_in_kani_any_order'] = vals[:4]
+                rep['command'] = 'build/kani/target/debug/gbverif ' + ' '.join(args[1:])
+                rep['confirmed_on_real_code'] = bool(rep.get('failed_checks'))
+                if rep['confirmed_on_real_code']:
+                    o.replay = rep
+                elif 'text formatting' in o.reason and not rep.get('error'):
+                    # the formatting stub over-approximates: only the real stream decides
+                    o.verdict = 'undecided'
+                    o.reason += ' [native replay on the real stream did not reproduce a wrong byte: ' + json.dumps(rep)[:300] + ']'
+                else:
+                    o.detail += '\n[native replay did not reproduce: %s]' % json.dumps(rep)[:600]
     info['unit'] = 'kani:misc:' + group
     info['status'] = 'ok' if not info.get('compile_error') else 'compile-error'
     info.setdefault('assumptions', [])
